@@ -70,6 +70,29 @@ def single_ret(body):
     return deep_strip(r[0][1])
 
 
+def _spec_any(ctx, prog, eff, rule, body, specs, want):
+    """outcome_spec against several admissible tables: passes if one of them is met exactly"""
+    from ..outcomes import outcome_spec
+
+    class _Probe:
+        def __init__(self):
+            self.last = None
+
+        def ob(self, rule, inst, ok, where="", detail=""):
+            self.last = (rule, inst, ok, where, detail)
+            return ok
+    res = []
+    for sp in specs:
+        pr = _Probe()
+        outcome_spec(pr, prog, eff, rule, body, sp, want)
+        res.append(pr.last)
+        if pr.last[2]:
+            break
+    good = [r for r in res if r[2]]
+    r = good[0] if good else res[0]
+    ctx.ob(r[0], strip_generics(body.id), r[2], r[3], r[4])
+
+
 def check_impl(ctx, prog, adt, methods):
     W = lambda b: b.where()
 
@@ -82,21 +105,32 @@ def check_impl(ctx, prog, adt, methods):
         if not b:
             ctx.ob("R19.1.present", f"{adt}::{nm}", False, "", "method body missing")
             continue
-        r = single_ret(b)
-        ok = False
-        detail = f"return term = {tstr(r) if r else 'multi-path'}"
-        if r and is_call(r, 'Option::map'):
-            inner, f = r[2][0], r[2][1]
-            a = intrinsic_call(inner, nm)
-            ok = bool(a) and raw_of(a[0], 1) and is_param(a[1], 2) and f == ('fn', adt)
-        ob("R19.1.checked", b, ok, detail + f"; required: Option::map(u64::{nm}(self.0, other), {adt})")
+        # outcome table: Some(Ctor(sum)) exactly when the exact sum fits, None otherwise — through the checked intrinsic
+        # (any spelling: map / match / ?) or through the overflowing intrinsic and its flag
+        from ..outcomes import outcome_spec
+        from ..pat import P, C, F, AGG, OKP, match as _m
+        from .. import effects as _eff
+        eff_ = _eff.Effects(prog)
+        X = C("num::" + nm, F(P(1), "0"), P(2))
+        Y = C("num::" + nm.replace("checked", "overflowing"), F(P(1), "0"), P(2))
+        NONE_ = AGG("Option", "None")
+        specs = [[(AGG("Option", "Some", AGG(adt, None, OKP(X))), [('discr', X, 1)]), (NONE_, [('discr', X, 0)])],
+                 [(AGG("Option", "Some", AGG(adt, None, F(Y, "0"))), [('bool', F(Y, "1"), False)]), (NONE_, [('bool', F(Y, "1"), True)])]]
+        _spec_any(ctx, prog, eff_, "R19.1.checked", b, specs,
+                  f"Some({adt}(s)) exactly when s = self.0 {'+' if 'add' in nm else '-'} other fits (u64::{nm}, or u64::{nm.replace('checked', 'overflowing')} with its flag), None otherwise")
     # --- checked_offset_from: intrinsic checked_sub(self.0, base.0)
     b = methods.get("checked_offset_from")
     if b:
-        r = single_ret(b)
-        a = intrinsic_call(r, "checked_sub") if r else None
-        ok = bool(a) and raw_of(a[0], 1) and raw_of(a[1], 2)
-        ob("R19.1.offset_from", b, ok, f"return term = {tstr(r) if r else '?'}; required: u64::checked_sub(self.0, base.0)")
+        from ..pat import P, C, F, AGG, OKP
+        from .. import effects as _eff
+        eff_ = _eff.Effects(prog)
+        X = C("num::checked_sub", F(P(1), "0"), F(P(2), "0"))
+        Y = C("num::overflowing_sub", F(P(1), "0"), F(P(2), "0"))
+        NONE_ = AGG("Option", "None")
+        specs = [[(X, [])],
+                 [(AGG("Option", "Some", OKP(X)), [('discr', X, 1)]), (NONE_, [('discr', X, 0)])],
+                 [(AGG("Option", "Some", F(Y, "0")), [('bool', F(Y, "1"), False)]), (NONE_, [('bool', F(Y, "1"), True)])]]
+        _spec_any(ctx, prog, eff_, "R19.1.offset_from", b, specs, "u64::checked_sub(self.0, base.0) (or overflowing_sub with its flag): Some(distance) exactly when self >= base")
     else:
         ctx.ob("R19.1.present", f"{adt}::checked_offset_from", False, "", "method body missing")
     # --- overflowing_*: (Ctor(r.0), r.1) with r = intrinsic(self.0, other)
